@@ -26,7 +26,8 @@ IterOK(e) ==
       /\ Len(e.steps) = Len(decl)
       /\ \A i \in 1..Len(decl) : StepEq(e.steps[i], decl[i])
       \* read hashes: rolled value = from-scratch value of the same window
-      /\ \A i \in 1..Len(e.steps) : Has(e.steps[i], "h") => e.steps[i].h = e.steps[i].hs
+      \* (a window of exactly k bases built from scratch yields its one k-mer: no value logged = the build gave nothing)
+      /\ \A i \in 1..Len(e.steps) : Has(e.steps[i], "h") => (Has(e.steps[i], "hs") /\ e.steps[i].h = e.steps[i].hs)
 
 (* ---- dict: SkaDict::new on FASTA records -------------------------------- *)
 LoggedPairs(d) == UNION {{<<x[1], dg>> : dg \in IupacSet(x[2])} : x \in ToSet(d)}
